@@ -151,9 +151,37 @@ func runPlan(w *tr.Writer, hid int, p Plan, workers int, mode string, policy int
 	for i := range seeds {
 		seeds[i] = rng.Int63()
 	}
-	driver := func(_ context.Context, _ graph.Transaction, seg *graph.PathSegment) ([]*graph.PathSegment, error) {
+	// block mode: one segment that can run next to the failing one sits in its driver call until the context the
+	// traversal handed it is cancelled (a long database call); the failing call waits until that one has started.
+	blockSeg := -1
+	entered := make(chan struct{})
+	var enteredOnce sync.Once
+	if mode == "block" {
+		for s := 1; s < p.N; s++ {
+			if s != p.Fail && !related(p, s, p.Fail) {
+				blockSeg = s
+				break
+			}
+		}
+	}
+	driver := func(dctx context.Context, _ graph.Transaction, seg *graph.PathSegment) ([]*graph.PathSegment, error) {
 		id := int(seg.Node.ID)
 		log.add(map[string]any{"e": "dstart", "hid": hid, "seg": id})
+		if id == blockSeg {
+			enteredOnce.Do(func() { close(entered) })
+			select {
+			case <-dctx.Done():
+			case <-time.After(6 * time.Second):
+			}
+			log.add(map[string]any{"e": "dend", "hid": hid, "seg": id})
+			return nil, dctx.Err()
+		}
+		if id == p.Fail && blockSeg >= 0 {
+			select {
+			case <-entered:
+			case <-time.After(300 * time.Millisecond):
+			}
+		}
 		cmu.Lock()
 		calls++
 		c := calls
@@ -204,6 +232,11 @@ func runPlan(w *tr.Writer, hid int, p Plan, workers int, mode string, policy int
 	}
 	runtime.GC()
 	base := runtime.NumGoroutine()
+	started := time.Now()
+	budget := 15000
+	if blockSeg >= 0 {
+		budget = 2000 // the unchanged tree returns within milliseconds of the failure
+	}
 	done := make(chan error, 1)
 	go func() {
 		done <- traversal.New(db, workers).BreadthFirst(ctx, traversal.Plan{Root: graph.NewNode(0, graph.NewProperties()), Driver: driver})
@@ -215,6 +248,7 @@ func runPlan(w *tr.Writer, hid int, p Plan, workers int, mode string, policy int
 	case <-time.After(20 * time.Second):
 		hung = true
 	}
+	elapsed := time.Since(started)
 	if g != nil {
 		close(g.stop)
 		verifhook.Install(nil)
@@ -247,11 +281,29 @@ func runPlan(w *tr.Writer, hid int, p Plan, workers int, mode string, policy int
 	for _, e := range evs {
 		w.Emit(e)
 	}
-	w.Emit(map[string]any{"e": "ret", "hid": hid, "err": err != nil, "leaked": leaked})
+	w.Emit(map[string]any{"e": "ret", "hid": hid, "err": err != nil, "leaked": leaked, "elapsed_ms": int(elapsed / time.Millisecond), "budget_ms": budget,
+		"blocking": blockSeg})
 	time.Sleep(2 * time.Millisecond)
 	for _, e := range log.snapshot()[nBefore:] { // expansions that started after the call returned
 		w.Emit(e)
 	}
+}
+
+// related: is a an ancestor or a descendant of b (or equal)?
+func related(p Plan, a, b int) bool {
+	anc := func(x, y int) bool { // x ancestor-or-self of y
+		for y >= 0 {
+			if x == y {
+				return true
+			}
+			if y == 0 {
+				return false
+			}
+			y = p.Parents[y-1]
+		}
+		return false
+	}
+	return anc(a, b) || anc(b, a)
 }
 
 func (l *evlog) snapshot() []map[string]any {
@@ -295,6 +347,10 @@ func Run(args []string) {
 		}
 		if !p.Cancel && p.Fail < 0 && pi%3 == 0 {
 			runPlan(w, hid, p, 1+pi%3, "free", -1, true, rng)
+			hid++
+		}
+		if !p.Cancel && p.Fail > 0 && p.N >= 3 {
+			runPlan(w, hid, p, 2+pi%2, "block", -1, false, rng)
 			hid++
 		}
 	}
